@@ -1,0 +1,8 @@
+//go:build verif
+
+package fans
+
+// VerifReset clears the package registry between simulated runs.
+func VerifReset() {
+	fanMap.Clear()
+}
